@@ -25,7 +25,8 @@ Definition process_event (s k : N) : res N :=
 
 (* the attributes next_event branches on.
    AARE: a_flag = association rejected (permanent/transient), b_flag = mechanism is HLS-GMAC.
-   ActionResponseNormalWithData: a_flag = status is SUCCESS; proof = 0 valid, 1 invalid, 2 validation raises *)
+   ActionResponseNormalWithData: a_flag = status is SUCCESS; proof = 0 valid, 1 invalid, 2 validation raises,
+   3 validation raises CipheringError (a proof whose security control byte asks for encryption) *)
 Record ev := { e_kind : N; a_flag : bool; b_flag : bool; proof : N }.
 
 (* DlmsConnection.send: (result, state afterwards) *)
@@ -60,7 +61,7 @@ Definition assoc_recv_raw (pre : bool) (s : N) (e : ev) : res unit * N :=
               match r3 with
               | Err x => (Err x, s2)
               | Ok s3 =>
-                  if proof e =? 2 then (Err ERefused, s3) else
+                  if proof e =? 2 then (Err ERefused, s3) else if proof e =? 3 then (Err 10, s3) else    (* 3: CipheringError *)
                   match process_event s3 (if proof e =? 0 then E_HLS_SUCCESS else E_HLS_FAILED) with
                   | Err x => (Err x, s3)
                   | Ok s4 => (Ok tt, s4)
